@@ -256,6 +256,14 @@ impl<'a> Explorer<'a> {
                     return out;
                 }
                 let violated = t.viol.iter().any(|x| !self.ctx.known_rules.iter().any(|k| k == x.rule));
+                if let (Some(diff), false) = (&t.hidden, violated) {
+                    let mut h = hist.clone();
+                    h.push(op);
+                    let mut k = key.to_vec();
+                    k.extend_from_slice(crate::faults::HIDDEN_MAGIC_T);
+                    k.extend_from_slice(diff);
+                    out.novel.push((h, k));
+                }
                 for x in t.viol {
                     out.viol.push(VRec { props: x.props, rule: x.rule, detail: x.detail, root, hist: hist.clone(), op: Some(op), mode: "transition" });
                 }
